@@ -27,6 +27,12 @@ claim("C10",
       STATIC_NOTE + "tables/zk_guards.json is the reference inventory (regenerated only by a reviewed maintainer action). Not decided: soundness of the equations, completeness for boundary witnesses.",
       "DESIGN.md §4 C10")
 
+claim("C03",
+      "type-driven must-check rules over every round (received proofs verified, commitments opened, validators applied), SSA reject-guard inventory with one-level helper inlining over all round methods / internal/ot / internal/mta / pkg/ecdsa (deciding callee + message, state and session data feeding each guard, index pairings kept; frozen in tables/round_guards.json), self-verification before ResultRound, handler ordering",
+      "Decides on every path of every consuming method that each tamper-detecting mechanism is present, fed by the received field and the right party's context, and gates every accepting exit (by dominance): all 25 received proof fields, 6 commitments, 16 validated fields, 300+ inventoried guards incl. the bespoke equations (Feldman, degree/constant term, decrypted-share range, Delta=delta*G, sum S=X, FROST share check, OT checks), and that a returned signature passed Verify. Right level for 'no field alteration is accepted': it is a for-all-fields/for-all-paths presence-and-placement claim; sufficiency of the cryptography is NOT decided.",
+      STATIC_NOTE + "tables/round_guards.json is the reference inventory (semantic keys, never positions). Known limit: a legitimate change of what data feeds a check requires a reviewed table regeneration.",
+      "DESIGN.md §4 C03")
+
 for p, why in {
     "C01": "not built yet", "C02": "not built yet", "C03": "not built yet", "C04": "not built yet", "C05": "not built yet",
     "C06": "not built yet", "C07": "not built yet", "C08": "not built yet", "C09": "not built yet", "C10": "not built yet",
